@@ -257,7 +257,11 @@ def one_template(job, opts: dict) -> dict:
         for r, (ok, _b, v) in zip(rows, tab):
             if ok and tuple(v) == tuple(lost[0]):
                 out["lost_witness"] = dict(zip(names, r))
+                out["lost_witness_boundary"] = T.boundary_hits(cap, r)
                 break
+        # is EVERY assignment that reaches a lost vector exactly on a validity limit?
+        lostset = set(map(tuple, lost))
+        out["lost_all_on_boundary"] = all(bool(T.boundary_hits(cap, r)) for r, (ok, _b, v) in zip(rows, tab) if ok and tuple(v) in lostset)
     return out
 
 
@@ -297,10 +301,10 @@ def work(case: dict) -> dict:
 
 
 def gen_case(rng, thorough: bool, i: int) -> dict:
-    big = (i % 5 == 0)
+    big = (i % 5 == 0) or (thorough and i % 3 == 0)
     p = ML.gen_params(rng, n_einsums=1, allow_fanout=(i % 3 == 1))
     wl = p["workload"]
-    if big and thorough and i % 10 == 0:
+    if big and thorough and i % 15 == 0:
         dims = (64, 48, 36)
     elif big:
         dims = rng.choice([(16, 12, 8), (12, 8, 6), (8, 12, 4)])
@@ -321,13 +325,16 @@ def gen_case(rng, thorough: bool, i: int) -> dict:
             p["lb_op"], p["lb_val"] = rng.choice([("==", 1), ("<=", 2), ("==", 2), ("product<=", 2), (">=", 1), ("<", 3)])
         if rng.random() < 0.4 or i % 6 == 1:
             knobs["max_loops_per_spatial_dimension"] = rng.choice([1, 1, 2])
-            if i % 6 == 1:
+            if i % 6 == 1:      # directed: the loop-count limit is met with equality by valid assignments
+                knobs["max_loops_per_spatial_dimension"] = 1
                 p["lb_op"] = ""
     if rng.random() < 0.3:
         knobs["max_fused_loops"] = rng.choice([0, 1, 2])
     mets = rng.choice([["ENERGY"], ["LATENCY"], ["ENERGY", "LATENCY"], ["ENERGY_DELAY_PRODUCT"], ["ENERGY", "LATENCY", "RESOURCE_USAGE"]])
+    if i % 6 == 1:
+        mets = rng.choice([["ENERGY", "LATENCY"], ["LATENCY"], ["ENERGY", "LATENCY", "RESOURCE_USAGE"]])
     return {"params": p, "metrics": mets, "imperfect": rng.random() < 0.35, "knobs": knobs, "seed": rng.randrange(1 << 40),
-            "n_templates": (3 if big else 6) if thorough else (2 if big else 3),
+            "n_templates": (4 if big else 6) if thorough else (2 if big else (8 if i % 6 == 1 else 3)),
             "opts": {"max_assignments": 120000 if thorough else 20000, "max_goal_points": 3000 if thorough else 800}}
 
 
@@ -365,7 +372,7 @@ def run(ctx: Ctx):
         for fpath in sorted(glob.glob(str(CORPUS_DIR / "C08" / "*.json"))):
             rp = json.loads(open(fpath).read())
             cases.append(rp.get("replay", rp)["case"])
-        n = 60 if ctx.thorough else 8
+        n = 150 if ctx.thorough else 8
         for i in range(n):
             cases.append(gen_case(rng, ctx.thorough, i))
     workers = min(int(os.environ.get("AFV_WORKERS", "4")), 4)
@@ -409,12 +416,15 @@ def run(ctx: Ctx):
             bad_goals = [g for g in t.get("goals", []) if not g["ok"]]
             if t["lost"]:
                 cause = "other"
-                if bad_goals and t["n_pareto_calls"] >= 2:
+                if t.get("lost_all_on_boundary"):
+                    cause = "validity-limit-met-exactly-rejected-in-float32"
+                elif bad_goals and t["n_pareto_calls"] >= 2:
                     cause = "in-flight:tracked-quantities-do-not-order-the-objective"
                 ctx.fail(f"front-lost:{cause}",
                          f"make_tile_shapes lost {len(t['lost'])} Pareto-optimal objective vector(s) of the template, e.g. {t['lost'][0]} "
                          f"reached by {t.get('lost_witness')}",
                          {**base, "lost": t["lost"], "lost_exact": t["lost_exact"], "lost_witness": t.get("lost_witness"),
+                          "lost_witness_boundary": t.get("lost_witness_boundary"),
                           "extra": t["extra"], "wrong_goals": bad_goals[:4]})
             elif t["extra"]:
                 ctx.fail("front-extra", "the front of the returned rows contains a vector that is not on the front of all valid assignments",
